@@ -14,8 +14,8 @@ import (
 	"github.com/lidofinance/dc4bc/client/services/fsmservice"
 	"github.com/lidofinance/dc4bc/fsm/fsm"
 	"github.com/lidofinance/dc4bc/fsm/state_machines"
-	"github.com/lidofinance/dc4bc/fsm/types/requests"
 	sif "github.com/lidofinance/dc4bc/fsm/state_machines/signing_proposal_fsm"
+	"github.com/lidofinance/dc4bc/fsm/types/requests"
 
 	"verif/harness/vstat"
 )
@@ -156,6 +156,7 @@ func TestC19(t *testing.T) {
 	if replaying() {
 		c19Signing(t, st)
 		rapidProp(t, st, "wide-walks", 0, 17, c19GenWide, func(w c05Walk) *viol { return c19RunWide(st, w) })
+		rapidProp(t, st, "large-rounds", 0, 19, c19GenLarge, func(p c19LargePlan) *viol { return c19RunLarge(st, p) })
 		var rp c19Replay
 		if replayFor(t, "states", &rp) {
 			st.Eval()
@@ -173,6 +174,7 @@ func TestC19(t *testing.T) {
 
 	t.Run("signing-continue", func(t *testing.T) { c19Signing(t, st) })
 	rapidProp(t, st, "wide-walks", perShard(pick(600, 30000)), 17, c19GenWide, func(w c05Walk) *viol { return c19RunWide(st, w) })
+	rapidProp(t, st, "large-rounds", perShard(pick(24, 400)), 19, c19GenLarge, func(p c19LargePlan) *viol { return c19RunLarge(st, p) })
 	pairs := c05Pairs(pick(3, 4))
 	si, sn := shard()
 	for k, p := range pairs {
